@@ -82,6 +82,11 @@ type C02Plan struct {
 	// CACHING browser (one browser with a CORS-preflight cache runs all intents in
 	// order). Empty: that world is not run.
 	Gaps []int `json:"gaps,omitempty"`
+	// Lenient: Cfg is a perturbed configuration (perturbCfg) that the documentation
+	// prohibits and the tree under test accepts all the same. What it means is not
+	// documented, so permits() is not consulted; the library must still agree with
+	// itself: one verdict per intent, whatever the debug mode and the alterations.
+	Lenient bool `json:"lenient,omitempty"`
 }
 
 type c02 struct{}
@@ -277,6 +282,9 @@ func (c02) Gen(r *R, tier string) any {
 	allowHugeOriginLists = true
 	observeUnknownAPI = false
 	p := &C02Plan{Cfg: genCfg(r)}
+	if r.P(0.05) {
+		p.Cfg, p.Lenient = genCfgLenient(r, p.Cfg)
+	}
 	n := r.Range(1, 4)
 	for i := 0; i < n; i++ {
 		in := genIntent(r, p.Cfg)
@@ -886,6 +894,7 @@ func (c02) Exec(plan any, c *Ctx) *Violation {
 		return nil
 	}
 	srvOff, srvOn := newServer(mOff.Wrap), newServer(mOn.Wrap)
+	lenientRef := false
 	for _, in := range p.Intents {
 		wantOff, whyOff := permits(cfgOff, in)
 		wantOn, whyOn := permits(cfgOn, in)
@@ -918,6 +927,15 @@ func (c02) Exec(plan any, c *Ctx) *Violation {
 			}
 			var trace []string
 			v := browserFetch(variant.srv, in, variant.alts, c, &trace)
+			if p.Lenient {
+				// an undocumented (newly accepted) configuration: the first variant's verdict is the
+				// reference for the others
+				if variant.name == "debug=off" {
+					lenientRef = v.OK
+				}
+				want, why = lenientRef, "the verdict of the same intent with debug off and no alteration (a configuration form the documentation prohibits: self-consistency only)"
+				c.hit("lenient_configuration_form_accepted_by_this_tree")
+			}
 			c.logf("%s intent=%+v -> ok=%v stage=%s %s (permits=%v %s)", variant.name, in, v.OK, v.Stage, v.Why, want, why)
 			if v.Stage == "panic" {
 				return &Violation{Class: "panic", Key: "serve", Detail: fmt.Sprintf("cfg=%s intent=%+v: %s", p.Cfg, in, v.Why)}
@@ -982,7 +1000,7 @@ func (c02) Exec(plan any, c *Ctx) *Violation {
 	// the intents in order on a simulated clock; what an earlier preflight response
 	// listed decides whether a later request is preflighted at all. The verdict of
 	// every intent must still be what the configuration means.
-	if len(p.Gaps) > 0 {
+	if len(p.Gaps) > 0 && !p.Lenient {
 		for _, w := range []struct {
 			name  string
 			srv   *mwServer
